@@ -51,6 +51,7 @@ def _r1(ctx):
     fx, cg = ctx.fx, ctx.cg
     r1 = ctx.rule('C20.R1', 'shared globals: copy-in, cycle and copy-back happen inside one lock region in that order; nothing else reaches the shared map', floor=5)
     into, frm, wl = SG + 'sync_into_locked', SG + 'sync_from_locked', SG + 'with_lock'
+    rule_sync_complete(ctx, r1)
     for f in (into, frm, wl):
         if f not in fx.fns:
             r1.bad('anchor-missing|%s' % f.split('::')[-1], 'function not found')
@@ -384,3 +385,28 @@ def _r7(ctx):
         r7.bad('sibling-calls', 'the two resource loops differ beyond the lock region: %s (plain, shared) — an edit applied to one copy only' % dict(sorted(unexpected.items())), loc=F(fx.fns[LOOPS[1]]).loc(0))
     else:
         r7.ok('sibling-calls', detail='%d distinct local callees compared' % len(set(a) | set(b)))
+
+
+def rule_sync_complete(ctx, r1):
+    """The copy-in and the write-back move *every* shared name, unconditionally: each iteration over SharedGlobals.names
+    passes the store (a value-dependent skip makes one resource's cycle lose another's update or publish half a set)."""
+    fx = ctx.fx
+    for name, store in (('sync_into_locked', r'VariableStorage::set_global$'), ('sync_from_locked', r'IndexMap::<K, V, S>::insert$|::insert$')):
+        rec = fx.fns.get(SG + name)
+        r1.saw()
+        if rec is None:
+            r1.bad('anchor-missing|%s' % name, '%s not found' % name)
+            continue
+        fn = F(rec)
+        stores = set(fn.blocks_calling(lambda n: re.search(store, n) is not None))
+        loops = [set(c) for c in fn.sccs() if len(c) > 1]
+        hs = {b for c in loops for b in c if re.search(r'::next$', fn.call_name(b) or '')}
+        key = 'moves-every-name|%s' % name
+        if not stores or not hs:
+            r1.bad(key, '%s no longer stores every shared name in a loop over the name list (shape not recognised)' % name, loc=fn.loc(0))
+            continue
+        skipping = [c for c in fn.sccs(removed_nodes=stores) if len(c) > 1 and set(c) & hs]
+        if skipping:
+            r1.bad(key, '%s can skip a shared name (an iteration finishes without the store): a value-dependent write-back drops updates when a variable returns to a value this resource held before, and the shared set becomes half-updated' % name, loc=fn.loc(min(set(skipping[0]) & hs)))
+        else:
+            r1.ok(key, loc=fn.loc(min(stores)))
